@@ -1,12 +1,15 @@
 import Grexv.Props.C13
+import Grexv.Lemmas.RepExpand
+import Grexv.Lemmas.Pipeline
 
 /-!
 # C05 — repetition conversion is a notation change (S4 level)
 
 The full statement is false of the code as it stands (known finding D2: the widening merge in
-`find_next_state`).  Proved for all inputs and thresholds: the conversion only ever *adds*
-structure to a grapheme — unit, counts and thresholds — and its nested conversion keeps the outer
-unit and counts.
+`find_next_state`).  Proved for all inputs and thresholds: **S4 itself is exact** — the converted cluster of
+every test case stands for the same sequence of grapheme values, at every nesting depth
+(`conversion_is_exact`, `clusters_with_rep_exact`), so a language change under `-r` can only come from the
+stages after it; plus: the conversion only ever adds structure to a grapheme (unit, counts, thresholds).
 -/
 set_option linter.unusedSimpArgs false
 set_option linter.unusedVariables false
@@ -48,6 +51,40 @@ theorem thresholds (cfg : Config) (cl : Cluster) (hplain : ∀ g ∈ cl, ∃ s, 
 theorem off_is_identity (cfg : Config) (env : Env) (ws : List Str) (h : cfg.rep = false) :
     graphemeClusters cfg env ws = graphemeClusters { cfg with rep := false } env ws := by
   cases cfg; simp_all
+
+/-- **C05 (S4 is exact)** for every cluster of plain graphemes and every pair of thresholds, the converted cluster
+expands (every counted grapheme `(unit, n, n)` to `n` copies of its unit) to the original sequence of values, and every
+nested repetition is a converted form of the unit it sits in -/
+theorem conversion_is_exact (cfg : Config) (ss : List Str) :
+    expandAll (convertRepetitions cfg (ss.map Grapheme.ofStr)) = ss ∧
+      ConsistentL (convertRepetitions cfg (ss.map Grapheme.ofStr)) := convertRepetitions_exact cfg ss
+
+theorem plain_cluster_form (cl : Cluster) (h : ∀ g ∈ cl, ∃ s, s ≠ [] ∧ g = Grapheme.ofStr s) :
+    cl = (cl.map Grapheme.value).map Grapheme.ofStr := by
+  induction cl with
+  | nil => rfl
+  | cons g rest ih =>
+    obtain ⟨s, _, rfl⟩ := h g List.mem_cons_self
+    have : (Grapheme.ofStr s).value = s := by show [s].flatten = s; simp
+    simp only [List.map_cons, this]
+    rw [← ih (fun x hx => h x (List.mem_cons_of_mem _ hx))]
+
+/-- **C05 (S4 is exact, on the clusters of a run)** with `-r`, every cluster handed to the trie is the conversion of
+the cluster the same run would use without `-r`, and stands for the same sequence of grapheme values -/
+theorem clusters_with_rep_exact (cfg : Config) (env : Env) (ws : List Str) (hrep : cfg.rep = true)
+    (hseg : ∀ w ∈ ws, ∀ p ∈ env.segOf w, p ≠ []) :
+    graphemeClusters cfg env ws = (graphemeClusters { cfg with rep := false } env ws).map (convertRepetitions cfg) ∧
+    ∀ cl0 ∈ graphemeClusters { cfg with rep := false } env ws,
+      expandAll (convertRepetitions cfg cl0) = cl0.map Grapheme.value ∧ ConsistentL (convertRepetitions cfg cl0) := by
+  constructor
+  · simp only [graphemeClusters, hrep, ite_true, Bool.false_eq_true, ite_false]
+    rfl
+  · intro cl0 hcl0
+    have hplain := clusters_ofStr { cfg with rep := false } env ws rfl hseg cl0 hcl0
+    have e := plain_cluster_form cl0 hplain
+    have := convertRepetitions_exact cfg (cl0.map Grapheme.value)
+    rw [← e] at this
+    exact this
 
 /-! non-vacuity / the known finding as a theorem: the widening merge accepts a count no test case has -/
 example : (Dfa.trie [[Grapheme.ofStr [97]], [Grapheme.mk [[97]] [] 2 2, Grapheme.ofStr [98]]]).edges.map
